@@ -6,6 +6,7 @@ import (
 
 	"github.com/superfly/litefs/verifharness/core"
 	"github.com/superfly/litefs/verifharness/dbreplay"
+	"github.com/superfly/litefs/verifharness/repl"
 )
 
 func main() {
@@ -14,8 +15,13 @@ func main() {
 	rep.Rule = "behaviours of DBFile.tla (local commits in both journal modes, rollbacks, checkpoints) interleaved with retention sweeps of zero-length retention at every idle point; after every step that ends a transaction and after every sweep the ltx directory is listed and decoded: every file verifies, min = previous max + 1, pre = previous post, last file = current position, nothing but transaction files and *.tmp; non-trivial = at least one transaction was captured"
 	rep.Assumptions = []string{"replicated applies, snapshots and backup acknowledgements are covered by the cluster checks (C01, C06, C14) with the same chain monitor"}
 	defer core.Cleanup()
+	// replicated applies, snapshots, restarts and drops: the cluster scripts with this property's monitors
+	repl.Main(rep, args, map[string]bool{"C09": true}, []repl.Stage{
+		{Name: "repl-3n-2tx-2faults", Cfg: "MC_Repl_quick.cfg", Timeout: 10 * time.Minute, MaxKeep: core.Pick(args, 40, 300)},
+	})
 	dbreplay.Main(rep, args, "C09", []dbreplay.Stage{
 		{Name: "rb-retention-3pg-4ops-exhaustive", Cfg: "MC_DBFile_retain.cfg", Timeout: 10 * time.Minute, MaxKeep: core.Pick(args, 800, 6000)},
 		{Name: "wal-3pg-3ops-exhaustive", Cfg: "MC_DBFile_wal_small.cfg", Timeout: 15 * time.Minute, MaxKeep: core.Pick(args, 600, 4000)},
+		{Name: "rb-drop-recreate-3pg-4ops-exhaustive", Cfg: "MC_DBFile_drop.cfg", Timeout: 10 * time.Minute, MaxKeep: core.Pick(args, 300, 0)},
 	})
 }
